@@ -311,6 +311,9 @@ enum cc_stat cc_list_add_all_at(CC_List *list1, CC_List *list2, size_t index)
     if (index > list1->size)
         return CC_ERR_OUT_OF_RANGE;
 
+    if (list1->size == 0)
+        return add_all_to_empty(list1, list2);
+
     /* Link the new nodes together outside of the list so
        that if anything goes wrong we don't have to leave
        garbage in the actual list. */
